@@ -457,8 +457,13 @@ class MetaApplication(Application):
                   SimpleContextProcessor('script_root')]
         super(MetaApplication, self).__init__(routes, resources, mwares)
 
-    def get_main(self, request, _application, _route, script_root):
-        full_ctx = {'page_title': self.page_title}
+    def get_main(self, request, _application, _route):
+        # not injected: when the host carries its own ScriptRootMiddleware
+        # (a unique type, possibly providing another name) ours is dropped
+        # while the middleware lists are merged
+        script_root = request.script_root
+        full_ctx = {'page_title': self.page_title,
+                    'script_root': script_root}
         kwargs = {'request': request,
                   '_route': _route,
                   '_application': _application,
